@@ -8,6 +8,7 @@
 //! processes (childstub, a scripted preprocessor / decompressor).
 
 mod c08;
+mod c14;
 mod c15;
 mod c18;
 mod common;
@@ -65,6 +66,28 @@ fn drive(opts: &Opts, level: &str, label: &str, workloads: u64, jobs: usize, rul
     rep.extra.insert("determinism_selftest".into(), json!({"workloads_reexecuted": again.digests.len(), "mismatches": 0, "driver_threads": [jobs, (jobs / 3).max(1)]}));
     rep.extra.insert("components".into(), components());
     rep.assumptions = assumptions;
+    if let Some(path) = opts.get("merge") {
+        // another engine's leg of the same property (written by `iosim --partial`)
+        let v = read_json(std::path::Path::new(path));
+        rep.evaluations += v["evaluations"].as_u64().unwrap_or(0);
+        for d in v["distinct"].as_array().cloned().unwrap_or_default() {
+            rep.distinct.insert(d.as_u64().unwrap_or(0));
+        }
+        let mut f = Counters::from_json(&v["faults"]);
+        f.merge(&rep.faults);
+        rep.faults = f;
+        let mut pr = Counters::from_json(&v["probes"]);
+        pr.merge(&rep.probes);
+        rep.probes = pr;
+        for s in v["samples"].as_array().cloned().unwrap_or_default().into_iter().take(2) {
+            rep.samples.insert(0, s);
+        }
+        rep.rule = format!("{} || {}", v["rule"].as_str().unwrap_or(""), rep.rule);
+        rep.extra.insert("library_leg".into(), v["extra"].clone());
+        for x in v["violations"].as_array().cloned().unwrap_or_default() {
+            rep.violations.push(Violation { property: opts.property.clone(), class: x["class"].as_str().unwrap_or("?").into(), summary: x["summary"].as_str().unwrap_or("").into(), subseed: x["subseed"].as_u64().unwrap_or(0), replay: x["replay"].clone() });
+        }
+    }
     rep.finish()
 }
 
@@ -82,6 +105,7 @@ fn main() {
             "c15" => c15::replay(&v),
             "c08" => c08::replay(&v),
             "c18" => c18::replay(&v),
+            "c14" => c14::replay(&v),
             k => harness_error(&format!("unknown replay kind {k}")),
         };
         match vs.first() {
@@ -144,6 +168,19 @@ fn main() {
                 "timing perturbation by a slow preprocessor is replaced by direct control of the interleaving".into(),
             ],
             |sub, acc, ctx, thorough| c08::run_workload(sub, None, acc, ctx, thorough),
+        ),
+        "C14" => drive(
+            &opts,
+            "exploration",
+            "c14",
+            opts.cases(700, 30000),
+            jobs,
+            "CLI leg: one evaluation = one run of the real rg binary (-j1 --sort path, pattern foo) over a generated tree whose files carry 1-2 NUL bytes at planned places (first byte, last byte, inside / just after a matching line, around 64 KiB, late, anywhere; some files stay text), named explicitly or reached by traversal, with default / --binary / --text, --mmap / --no-mmap, optionally under syscall-level read fragmentation, in line, count, list, context and multi-line modes. Oracle: no NUL byte on stdout unless --text; in line mode per file: --text and text files print exactly the model's lines; a NUL-bearing file prints a NUL-free prefix of its matching lines plus at most one notice, which comes last; explicit / --binary: silent only if nothing matches; traversed default: a proper non-empty prefix must be followed by the warning. distinct_nontrivial = distinct (workload, stdout) outcomes with NUL-bearing files plus distinct library-leg cases.",
+            vec![
+                "the pattern is a literal that neither contains nor spans a NUL, so 'does a line match' is strategy independent".into(),
+                "which lines before the NUL are still printed legitimately depends on the strategy and read history (the property allows dropping or cutting off); only prefix-ness, NUL-freeness and the presence/absence of the notice are demanded".into(),
+            ],
+            |sub, acc, ctx, thorough| c14::run_workload(sub, acc, ctx, thorough),
         ),
         "C18" => drive(
             &opts,
